@@ -637,7 +637,10 @@ def history_cases(tier):
     return [dict(id=f"first={k}", histories=v) for k, v in shards.items()]
 
 
-SECTIONS = {"env": (env_cases, case_env), "iter": (iter_cases, case_iter), "e2e": (e2e_cases, case_e2e), "history": (history_cases, case_history)}
+from .c01_offeq import case_offeq, offeq_cases  # noqa: E402  (real solves WITH an out-of-equilibrium particle and a synthetic collision operator)
+
+SECTIONS = {"env": (env_cases, case_env), "iter": (iter_cases, case_iter), "e2e": (e2e_cases, case_e2e), "offeq": (offeq_cases, case_offeq),
+            "history": (history_cases, case_history)}
 
 
 def run(ctx) -> None:
